@@ -877,6 +877,12 @@ class _ExecutorManagerThread(threading.Thread):
             except ProcessLookupError:  # pragma: no cover
                 pass
 
+        # No worker is left to read the call queue: close our copy of its
+        # reading end, so that a feeder thread blocked while sending a task
+        # larger than the pipe buffer fails with EPIPE instead of waiting for
+        # ever and leaking the thread and the pipe (see cpython gh-94777).
+        self.call_queue._reader.close()
+
     def shutdown_workers(self):
         # shutdown all workers in self.processes
 
